@@ -287,5 +287,4 @@ def run(ctx):
 
 
 def replay(rec):
-    print(json.dumps(rec['input'])[:300])
-    return 1
+    return common.replay_by_rerun(sys.modules[__name__], rec)
